@@ -854,7 +854,7 @@ func runOne(c *lib.Ctx, cs caseT) (calls int64, applyCalls int64, failed bool) {
 	case cs.AK > 0 && failed:
 		c.Count(fmt.Sprintf("%s/apply_edits_fault_at_call_%d:reported", kind, cs.AK))
 	case cs.AK > 0:
-		c.Count(fmt.Sprintf("%s/apply_edits_fault_at_call_%d:swallowed_by_StatementComplete_and_repaired_at_Close", kind, cs.AK))
+		c.Count(fmt.Sprintf("%s/apply_edits_fault_at_call_%d:NOT_reported", kind, cs.AK))
 	case cs.K > 0:
 		c.Count(fmt.Sprintf("%s/injected_at_call_%d", kind, min(cs.K, 6)))
 	case failed:
@@ -875,11 +875,14 @@ func runOne(c *lib.Ctx, cs caseT) (calls int64, applyCalls int64, failed bool) {
 	}
 	if failed && cs.AK > 0 && !eqS(texts(before.rows), texts(after.rows)) {
 		// a storage error inside ApplyEdits: classify by what is left behind
-		full := texts(applyEdits(before.rows, es))
+		// The error is reported (StatementComplete no longer swallows it), but nothing discards the pending edits and
+		// tableEditor.Close re-runs ApplyEdits and publishes: what stays is ApplyEdits of a prefix of the statement's
+		// edits (all of them for a plain statement; the rows up to the failing one for INSERT IGNORE).
 		sig := "apply-edits-failure-leaves-partial-edits"
-		if eqS(full, texts(after.rows)) {
-			// everything was applied and published by the StatementComplete calls; the failing call is a re-run at Close
-			sig = "apply-edits-error-at-close-reported-after-changes-published"
+		for j := 1; j <= len(es); j++ {
+			if eqS(texts(applyEdits(before.rows, es[:j])), texts(after.rows)) {
+				sig = "apply-edits-error-at-close-reported-after-changes-published"
+			}
 		}
 		c.PredFail(id, sig, fmt.Sprintf("%q with a storage error in ApplyEdits call %d of %d reports %v, yet the rows went from %v to %v", cs.Stmt.SQL, cs.AK, applyCalls, res.Err, texts(before.rows), texts(after.rows)), cs)
 		return
@@ -926,8 +929,8 @@ func runOne(c *lib.Ctx, cs caseT) (calls int64, applyCalls int64, failed bool) {
 		if natural {
 			c.PredFail(id, "invalid-statement-succeeds", fmt.Sprintf("%q should fail (%s) but succeeded; rows %v", cs.Stmt.SQL, cs.Stmt.How, texts(after.rows)), cs)
 		} else if want := texts(applyEdits(before.rows, es)); !eqS(want, texts(after.rows)) && cs.AK > 0 {
-			// StatementComplete returned nil although ApplyEdits failed: the statement goes on and succeeds without the
-			// edits that were pending (INSERT IGNORE: the next ignorable row clears the accumulator)
+			// (fixed by /repo 647a7064d) StatementComplete returned nil although ApplyEdits failed: the statement went on and
+			// succeeded without the edits that were pending (INSERT IGNORE: the next ignorable row cleared the accumulator)
 			c.PredFail(id, "apply-edits-error-swallowed-by-statement-complete-loses-rows",
 				fmt.Sprintf("%q with a one-shot storage error in ApplyEdits call %d of %d SUCCEEDS; expected rows %v, found %v", cs.Stmt.SQL, cs.AK, applyCalls, want, texts(after.rows)), cs)
 		} else if !eqS(want, texts(after.rows)) {
